@@ -207,11 +207,12 @@ func (p *c25Pool) call(kind string, f func() error) {
 			if !seen {
 				p.panics[k] = c25QueryPanic{Key: k, What: fmt.Sprintf("query %s panicked: %v", kind, r), Stack: stackRepoFrames(st, 10)}
 			}
+			rec := p.panics[k]
 			p.mu.Unlock()
 			if !seen && p.res != nil {
 				// recorded at once: if the run hangs later (a mutex left locked by this panic), the dump shows it
 				c25ResMu.Lock()
-				p.res.PanicsSoFar = append(p.res.PanicsSoFar, p.panics[k])
+				p.res.PanicsSoFar = append(p.res.PanicsSoFar, rec)
 				c25ResMu.Unlock()
 			}
 		}
@@ -1541,6 +1542,8 @@ func parseRaceLog(text string) [][5]string {
 		type acc struct {
 			owner, site string
 			hazard      string // why this access can crash the node or perturb block execution ("" = it cannot)
+			topSeen     bool
+			harness     bool
 		}
 		var accs []acc
 		var cur acc
@@ -1567,6 +1570,14 @@ func parseRaceLog(text string) [][5]string {
 				inAccess = false
 				continue
 			}
+			if inAccess && cur.site == "" && !cur.topSeen {
+				if m := raceFrameRe.FindStringSubmatch(l); m != nil && !strings.Contains(m[1], "/src/runtime/") {
+					cur.topSeen = true
+					if strings.Contains(m[1], "/verif/harness/") {
+						cur.harness = true // the access is an instruction of the harness itself, not of the node
+					}
+				}
+			}
 			if inAccess && cur.site == "" && (strings.HasPrefix(t, "runtime.map") || strings.HasPrefix(t, "runtime.growslice")) {
 				cur.hazard = "the access is a map operation (the runtime aborts the process on concurrent map access)"
 			}
@@ -1583,6 +1594,9 @@ func parseRaceLog(text string) [][5]string {
 		flush()
 		if len(accs) >= 2 {
 			a, b := accs[0], accs[1]
+			if a.harness || b.harness {
+				a.owner, a.site, b.owner, b.site = "?", "?", "?", "?" // a race inside the harness: not a finding about the node
+			}
 			if a.owner == "" {
 				a.owner, a.site = "?", "?"
 			}
